@@ -11,8 +11,11 @@
   quantizer's `scale` attribute is carried broadcast to the weight's shape.
   Core Lean only: these definitions are run by drivers/C14.lean and are the ones the theorems
   of QKV.Props.C14 are about.  The model mirrors the code as it is, defects included
-  (see notes/C14.md: auto_po2 split, shifted zip for QBatchNormalization(scale/center=False)
-  and QBidirectional, `signs` list without a slot for auto_po2 weights).
+  (see notes/C14.md: the auto_po2 split is still the recorded finding C14-autopo2-split).
+  Fix round (notes/C14.md "Fix round"): the model follows the repaired code — the
+  (quantizer, weight) pairing of QBatchNormalization (any scale / center) and QBidirectional
+  (`bnQs`, `bidirQs`), a `signs` slot for every weight, pooling layers without average quantizer,
+  and a floating-point `2**integer` in the auto_po2 branch.
 -/
 import QKV.Model.Basic
 namespace QKV.Export
@@ -61,8 +64,8 @@ def ubits (bits : Int) (keepNeg : Bool) : Int := bits - (if keepNeg then 1 else 
 structure WOut where
   stored : Tensor                 -- appended to `weights`   (software-inference format)
   hw : Tensor                     -- appended to `hw_weights`
-  sign : Option Tensor            -- appended to `signs`  (none: nothing is appended)
-  scale : Option Tensor           -- appended to `scales` (none: nothing is appended)
+  sign : Tensor                   -- appended to `signs`  (every branch appends; [] = placeholder)
+  scale : Tensor                  -- appended to `scales` (every branch appends; [] = placeholder)
   hasSign : Bool
   hasScale : Bool
   err : Option String             -- assertion / exception raised by this iteration
@@ -70,25 +73,24 @@ structure WOut where
 
 def splitWeight (q : Option Quant) (w : Tensor) : WOut :=
   match q with
-  | none => { stored := w, hw := w, sign := some [], scale := some [], hasSign := false,
+  | none => { stored := w, hw := w, sign := [], scale := [], hasSign := false,
               hasScale := false, err := none }
   | some Q =>
     let wq := Q.q w
     match Q.kind with
     | .po2 sg =>
-      { stored := wq, hw := wq.map (fun v => ((expOf v : Int) : Rat)), sign := some (wq.map signOf),
-        scale := some [], hasSign := sg, hasScale := false,
+      { stored := wq, hw := wq.map (fun v => ((expOf v : Int) : Rat)), sign := wq.map signOf,
+        scale := [], hasSign := sg, hasScale := false,
         err := none }
     | .autoPo2 bits integer kn =>
       let m := pow2 (ubits bits kn)          -- K.cast_to_floatx(pow(2, unsigned_bits))
-      let mi := pow2 integer                 -- K.cast_to_floatx(K.pow(2, quantizer.integer))
+      let mi := pow2 integer                 -- K.cast_to_floatx(K.pow(2.0, cast_to_floatx(quantizer.integer)))
       let s := Q.scaleOf w
-      { stored := wq, hw := wq.map (fun v => v * m / mi), sign := none,
-        scale := some (s.map (fun v => v * mi / m)), hasSign := false, hasScale := true,
-        err := if integer < 0 then some "int-pow"            -- tf.pow(2, negative int) raises
-               else if s.all isPo2 then none else some "assert" }
+      { stored := wq, hw := wq.map (fun v => v * m / mi), sign := [],   -- signs.append([])
+        scale := s.map (fun v => v * mi / m), hasSign := false, hasScale := true,
+        err := if s.all isPo2 then none else some "assert" }
     | .other =>
-      { stored := wq, hw := wq, sign := some [], scale := some [], hasSign := false,
+      { stored := wq, hw := wq, sign := [], scale := [], hasSign := false,
         hasScale := false, err := none }
 
 /-- `zip(qs, ws)` (stops at the shorter list) -/
@@ -102,8 +104,9 @@ def zipApply : List (Option Quant) → List Tensor → List Tensor
   | _, _ => []
 
 inductive LKind
-  | plain      -- qs = get_quantizers(), ws = get_weights(), set_weights(weights)
+  | plain      -- qs = get_quantizers() (QBatchNormalization: its own pairing, `bnQs`), ws = get_weights(), set_weights(weights)
   | rnn        -- QSimpleRNN / QLSTM / QGRU: qs = get_quantizers()[:-1]
+  | bidir      -- QBidirectional: per direction get_quantizers()[:len(get_weights())], `bidirQs`
   | folded     -- QConv2DBatchnorm / QDepthwiseConv2DBatchnorm: ws = get_folded_weights(), not written back
   | noQuant    -- no `get_quantizers` attribute: untouched, no dictionary entry
   deriving Repr, DecidableEq, Inhabited
@@ -133,11 +136,31 @@ structure Layer where
   pool : Option PoolInfo
   succ : List Nat                            -- graph successors (consumer layers; [sink] if none)
   allow : Bool                               -- class name in get_model_sparsity's default allow_list
+  dirW : Nat := 0                            -- QBidirectional: len(forward_layer.get_weights()) (2 or 3)
 
+/-- QBatchNormalization: `get_quantizers()` is always [gamma, beta, mean, variance, inverse] but
+    `get_weights()` has no gamma when `scale=False` and no beta when `center=False`:
+    `qs = [gamma_q] if scale` + `[beta_q] if center` + `[mean_q, variance_q]` -/
+def bnQs (info : BNInfo) (qs : List (Option Quant)) : List (Option Quant) :=
+  (if info.scale then qs.take 1 else []) ++ (if info.center then (qs.drop 1).take 1 else []) ++
+    (qs.drop 2).take 2
+
+/-- QBidirectional: `get_quantizers()` = forward [kernel, recurrent, bias, state] ++ backward [...],
+    `get_weights()` = forward weights ++ backward weights (`nw` each):
+    `for rnn in [forward_layer, backward_layer]: qs += rnn.get_quantizers()[:len(rnn.get_weights())]`
+    (both directions list the same number of quantizers) -/
+def bidirQs (nw : Nat) (qs : List (Option Quant)) : List (Option Quant) :=
+  (qs.take (qs.length / 2)).take nw ++ (qs.drop (qs.length / 2)).take nw
+
+def defaultBN : BNInfo := { scale := true, center := true, eps := 0 }
+
+/-- the quantizer list the main loop zips with the layer's weights -/
 def layerQs (l : Layer) : List (Option Quant) :=
   match l.kind with
   | .rnn => l.qs.dropLast
-  | _ => l.qs
+  | .bidir => bidirQs l.dirW l.qs
+  | .folded => l.qs
+  | _ => if l.cls = "QBatchNormalization" then bnQs (l.bn.getD defaultBN) l.qs else l.qs
 
 def layerWs (l : Layer) (w : List Tensor) : List Tensor :=
   match l.kind with
@@ -147,10 +170,9 @@ def layerWs (l : Layer) (w : List Tensor) : List Tensor :=
 /-- what `layer.set_weights(weights)` leaves in the layer -/
 def stepWeights (l : Layer) (w : List Tensor) : List Tensor :=
   match l.kind with
-  | .plain => zipApply l.qs w
-  | .rnn => zipApply l.qs.dropLast w
   | .folded => w
   | .noQuant => w
+  | _ => zipApply (layerQs l) w
 
 abbrev Model := List Layer
 
@@ -216,7 +238,7 @@ structure BnTerms where
     `bw = bn_layer.get_weights()`, `prevW = prev_layer.get_weights()` at the time of the call -/
 def bnTerms (env : Env) (bnL : Layer) (bw : List Tensor) (useBias : Bool) (prevW : List Tensor) :
     BnTerms :=
-  let info := bnL.bn.getD { scale := true, center := true, eps := 0 }
+  let info := bnL.bn.getD defaultBN
   let gq := (bnL.qs[0]?).join
   let bq := (bnL.qs[1]?).join
   let mq := (bnL.qs[2]?).join
@@ -273,14 +295,14 @@ def firstErr : List (Option String) → Option String
 /-- `zip(qs, ws)` loop of layer `l` holding weights `wi` -/
 def layerOuts (l : Layer) (wi : List Tensor) : List WOut := zipSplit (layerQs l) (layerWs l wi)
 
-/-- pooling factors: `q_mult_factor`, `mult_factor`, `pool_area` (and the exception when the
-    average quantizer is None: `layer.average_quantizer_internal(1.0 / pool_area)`) -/
+/-- pooling factors: `q_mult_factor`, `mult_factor`, `pool_area`; without average quantizer
+    `q_mult_factor` is the plain `1.0 / pool_area` (no exception) -/
 def poolPart (l : Layer) : Option PoolEntry × Option String :=
   match l.pool with
   | none => (none, none)
   | some p =>
     match (l.qs[0]?).join with
-    | none => (none, some "type-error")
+    | none => (some { qMult := p.mf, mult := p.mf, area := p.area }, none)
     | some Q => (some { qMult := (Q.q [p.mf]).getD 0 0, mult := p.mf, area := p.area }, none)
 
 /-- `if layer.name in fusing_layer_pair_dict: add_bn_fusing_weights(layer, bn_layer, ...)`, called
@@ -299,8 +321,8 @@ def assemble (outs : List WOut) (enableBn : Bool) (pp : Option PoolEntry × Opti
     (ft : Option (Nat × BnTerms)) : Entry × Option String :=
   let e0 : Entry :=
     { hw := outs.map (·.hw), enableBnFusing := enableBn,
-      signs := if outs.any (·.hasSign) then some (outs.filterMap (·.sign)) else none,
-      scales := if outs.any (·.hasScale) then some (outs.filterMap (·.scale)) else none,
+      signs := if outs.any (·.hasSign) then some (outs.map (·.sign)) else none,
+      scales := if outs.any (·.hasScale) then some (outs.map (·.scale)) else none,
       pool := pp.1, fusedBn := none, bnInv := none, fusedBias := none }
   let errs := firstErr (outs.map (·.err))
   match ft with
